@@ -794,11 +794,16 @@ impl LightClientProtocol {
 
         let now = unix_time_as_millis();
         let last_hash = tip_header.calc_header_hash();
-        for block_hashes in self
+        // The last state cannot be proved against itself: a server refuses a request which
+        // lists the last hash among the block hashes as malformed. Such a fetch waits until the
+        // last state has moved on.
+        let headers_to_fetch: Vec<_> = self
             .peers
             .get_headers_to_fetch()
-            .chunks(GET_BLOCKS_PROOF_LIMIT)
-        {
+            .into_iter()
+            .filter(|block_hash| block_hash != &last_hash)
+            .collect();
+        for block_hashes in headers_to_fetch.chunks(GET_BLOCKS_PROOF_LIMIT) {
             if let Some(peer_index) = best_peers.iter().find(|peer_index| {
                 self.peers
                     .get_peer(peer_index)
